@@ -5,6 +5,7 @@ package checks
 import (
 	"errors"
 	"fmt"
+	"regexp"
 	"sort"
 	"strings"
 	"testing"
@@ -23,6 +24,9 @@ import (
 type c17Input struct {
 	Model *gen.Model `json:"model"`
 	Text  string     `json:"text,omitempty"`
+	// Edit: the model object that was just built is overwritten in place with this model and built again (nothing else
+	// is built in between); the graph must be the graph of the new contents
+	Edit *gen.Model `json:"edited_to,omitempty"`
 }
 
 const c17Rule = "rapid-generated models (graph profile with hazards and json-profile rewrite trees, <= 3 object types x <= 3 relations so that cycle enumeration stays small); " +
@@ -132,6 +136,10 @@ func c17Signature(g *graph.AuthorizationModelGraph, reversed bool) (string, erro
 	sort.Strings(lines)
 	return strings.Join(lines, "\n"), nil
 }
+
+// an operator's unique label: operator word, colon, 26 characters of Crockford base 32 (a type may be called "union"
+// and have a wildcard node "union:*"; names may contain "01")
+var c17ULIDLabel = regexp.MustCompile(`(union|intersection|exclusion):[0-9A-HJKMNP-TV-Z]{26}`)
 
 func c17CountNodes(g gonum.Graph) int {
 	n := 0
@@ -283,8 +291,29 @@ func c17Check(in c17Input) string {
 			}
 		}
 	}
-	if strings.Contains(dot, "01") && (strings.Contains(dot, "union:") || strings.Contains(dot, "intersection:") || strings.Contains(dot, "exclusion:")) {
+	if c17ULIDLabel.MatchString(dot) {
 		return "DOT text contains an operator's unique (ULID) label"
+	}
+	// the same model OBJECT with other contents: the graph is a function of the contents, not of the object
+	if in.Edit != nil {
+		obj := m.Proto()
+		if _, err := graph.NewAuthorizationModelGraph(obj); err != nil {
+			return "rebuild failed: " + describe(err)
+		}
+		proto.Reset(obj)
+		proto.Merge(obj, in.Edit.Proto())
+		g2, err := graph.NewAuthorizationModelGraph(obj)
+		if err != nil || g2 == nil {
+			return "NewAuthorizationModelGraph failed on a model object that was edited in place: " + describe(err)
+		}
+		want2 := ref.BuildPlain(in.Edit).Signature()
+		got2, err := c17Signature(g2, false)
+		if err != nil {
+			return err.Error()
+		}
+		if got2 != want2 {
+			return fmt.Sprintf("a model object edited in place and built again gives a graph that differs from its new contents: %s", firstDiffLine(want2, got2))
+		}
 	}
 	// cycles (GetCycles enumerates every elementary cycle, which is exponential: asked only when a budgeted enumeration
 	// on the reference graph finishes)
@@ -418,8 +447,41 @@ func TestC17(t *testing.T) {
 		if nt {
 			sample = map[string]any{"model": m.String(), "nodes": len(rg.Nodes)}
 		}
-		rec.Case(m, nt, sample, cls...)
 		in := c17Input{Model: m}
+		switch rapid.IntRange(0, 7).Draw(rt, "editInPlace") {
+		case 0:
+			in.Edit = c17Draw(rt) // another model over the same pool of names
+			cls = append(cls, "history:object-edited-in-place")
+		case 1:
+			// the same model without one of its relations / with one more type and parent
+			e := m.Clone()
+			var cands []int
+			for ti := range e.Types {
+				if len(e.Types[ti].Rels) > 1 {
+					cands = append(cands, ti)
+				}
+			}
+			if len(cands) > 0 {
+				ti := cands[rapid.IntRange(0, len(cands)-1).Draw(rt, "editType")]
+				ri := rapid.IntRange(1, len(e.Types[ti].Rels)-1).Draw(rt, "editRel")
+				if rapid.Bool().Draw(rt, "editDrop") {
+					e.Types[ti].Rels = append(e.Types[ti].Rels[:ri:ri], e.Types[ti].Rels[ri+1:]...)
+				} else {
+					nt := gen.TypeDef{Name: "zzedit"}
+					for _, r := range e.Types[ti].Rels {
+						nt.Rels = append(nt.Rels, gen.Relation{Name: r.Name, Rw: &gen.Rewrite{Kind: gen.This}, Restr: []gen.Restriction{{Type: e.Types[0].Name}}})
+					}
+					e.Types = append(e.Types, nt)
+					e.Types[ti].Rels[0].Restr = append(e.Types[ti].Rels[0].Restr, gen.Restriction{Type: "zzedit"})
+					if e.Types[ti].Rels[0].Rw.CountThis() == 0 {
+						e.Types[ti].Rels[0].Rw = &gen.Rewrite{Kind: gen.This}
+					}
+				}
+				in.Edit = e
+				cls = append(cls, "history:object-edited-in-place")
+			}
+		}
+		rec.Case(m, nt, sample, cls...)
 		if msg := c17Check(in); msg != "" {
 			in.Text = m.String()
 			rec.Violation(in, msg)
